@@ -30,6 +30,7 @@ func runC03(c *Ctx) {
 		return
 	}
 	reach := p.reachableFrom([]*ssa.Function{hc})
+	runC03Rollback(c, hc, reach)
 	setSize := p.field("sattr3", "SetSize")
 	nCreators := 0
 	hasExcl := false
